@@ -511,6 +511,14 @@ def _run_reduce(case, r):
                 want = acc if mode == "sum" else acc / shape[p]
                 ok = chk(out.img.shape == want.shape and np.array_equal(out.img, want), cell + "/data", "sum = plain array sum along the axis; average = that sum / number of voxels along the axis", data=arr, got=out.img, want=want)
                 chk(out.space_dim == dim - 1 and _dims(out) == kept, cell + "/extent", "the retained axes keep the parent's dimensions", got=_dims(out), want=kept)
+                # ... and their position: the lower (Cartesian) corner of the reduced image is the parent's
+                # lower corner with the entry of the reduced Cartesian axis removed (as documented in AxisReduction)
+                if out.space_dim == dim - 1 and dim - 1 >= 1:
+                    cart_removed = {2: {0: 1, 1: 0}, 3: {0: 2, 1: 0, 2: 1}}[dim][p]  # matrix axis -> Cartesian axis (i->y, j->x | i->z, j->x, k->y)
+                    pmin = np.minimum(np.asarray(img.origin, dtype=float), np.asarray(img.opposite_corner, dtype=float))
+                    want_min = np.delete(pmin, cart_removed)
+                    got_min = np.minimum(np.asarray(out.origin, dtype=float), np.asarray(out.opposite_corner, dtype=float))
+                    chk(got_min.shape == want_min.shape and np.array_equal(got_min, want_min), cell + "/position", "the reduced image keeps the lower corner of the retained Cartesian axes", got=got_min, want=want_min, parent_min=pmin)
                 if ok and out.space_dim == dim - 1 and _dims(out) == kept:
                     factor = VS[p] if mode == "sum" else dims[p]
                     scale = _integral(np.abs(arr), dims, dim)
